@@ -55,7 +55,7 @@ def generate(seed, tier):
     sc['ops'].sort(key=lambda x: x['t'])
     if r.random() < 0.25:
         # Byzantine peer batch: replies a conforming peer may send but this implementation never does, and defective replies
-        sc['byz'] = {'kind': r.choice(['bad_reply', 'bad_reply', 'auth_malformed', 'reuse_spi_request', 'delete_child_on_rekeyed', 'delete_child_on_rekeyed']),
+        sc['byz'] = {'kind': r.choice(['bad_reply', 'bad_reply', 'auth_malformed', 'reuse_spi_request', 'delete_child_on_rekeyed', 'delete_child_on_rekeyed', 'delete_other_spi', 'delete_other_spi']),
                      'seed': r.randrange(2 ** 31)}
         sc['meta']['byz'] = sc['byz']['kind']
         if sc['byz']['kind'] == 'delete_child_on_rekeyed':
